@@ -72,6 +72,15 @@ def history_plan(rng, tier, levels, silent_streak=False, identity_changes=True, 
         mine = []
         opid += 1
         mine.append({"id": opid, "s": s, "op": "refresh"})
+        if rng.random() < 0.3 and not silent_streak:
+            # the first refresh (discovery / time sync) fails, the application retries later
+            k = rng.choice([1, 2])
+            scripts["%d:%d" % (opid, k)] = rng.choice([{"replies": [{"k": "none"}]}, {"req": "drop"}, {"replies": [{"k": "genuine", "outer": [{"op": "truncate", "n": rng.randrange(1, 60)}]}]}])
+            if rng.random() < 0.5:
+                opid += 1
+                mine.append({"id": opid, "s": s, "op": "get", "oid": rng.choice([r[0] for r in agent["mib"]] or ["1.3.6"])})
+            opid += 1
+            mine.append({"id": opid, "s": s, "op": "refresh"})
         n = rng.randint(2, 6 if tier == "quick" else 14)
         if long_run:
             n = long_run
@@ -127,6 +136,31 @@ def history_plan(rng, tier, levels, silent_streak=False, identity_changes=True, 
         # the environment task cannot be interleaved deterministically with per-session idles: keep env ops out
         plan["ops"] = [o for o in ops if o["op"] != "agent"]
     return plan
+
+
+def two_engine_plan(rng, tier, levels, ktypes=("password", "master")):
+    """The same user (same secrets) on two agents with different engine ids, used by two
+    sessions of one process, interleaved: keys must be localized per engine."""
+    p = history_plan(rng, tier, levels, nsess=2, identity_changes=False, ktypes=list(ktypes))
+    a0 = p["agent"]
+    u = p["sessions"][0]["user"]
+    a0["users"] = [u]
+    a1 = dict(a0)
+    eng1 = gen.engine_id(rng)
+    while eng1 == a0["engine_id"]:
+        eng1 = gen.engine_id(rng)
+    a1["engine_id"] = eng1
+    a1["boots"] = rng.choice([0, 5, 77])
+    a1["time0"] = rng.choice([0, 100000])
+    p["agents"] = [a0, a1]
+    del p["agent"]
+    for i, sc in enumerate(p["sessions"]):
+        sc["user"] = u
+        sc["agent"] = i
+        if "engine_id" in sc:
+            sc["engine_id"] = p["agents"][i]["engine_id"]
+    p["two_engines"] = True
+    return p
 
 
 def hi_entropy_oid(rng):
